@@ -63,7 +63,7 @@ class C17(Prop):
     technique = "action/fault histories on a real bridge; after every action: flag-vs-model, bind probe per port, sentinel delivery; end-of-history no-late-callback check"
     rule = ("history over {start, stop, async-with (normal body / raising body), send-then-stop-without-yielding, send to port i, occupy port i "
             "with a foreign socket, release port i}; all legal histories of length <= 4 (1 port) and <= 3 (2 ports; <= 4 in thorough) are "
-            "enumerated, longer random ones over 1..4 ports sampled; distinct = (ports, history); non-trivial = histories containing a bind "
+            "enumerated, longer random ones over 1..4 ports sampled; an independent bridge on another port runs throughout and must keep delivering; distinct = (ports, history); non-trivial = histories containing a bind "
             "failure, a restart, a raising body or traffic while stopped")
     level_text = ("All short action histories are enumerated on every run and longer ones sampled; after each action the running flag, the "
                   "bindability of every configured port and (when running) real delivery on every port are checked, a failed start must leave "
@@ -129,6 +129,10 @@ class C17(Prop):
         log = self.rig.log
         log.clear()
         bridge = self.Bridge(log.callback, ports)
+        # an independent bridge on another port keeps running for the whole history and must be unaffected
+        bport = self.rig.free_ports(1)[0]
+        bystander = self.Bridge(log.callback, [bport])
+        await bystander.start()
         model = False
         occupied = {}           # index -> foreign socket
         must_not_deliver = {}   # tag -> action index at which it was sent while not running
@@ -166,6 +170,8 @@ class C17(Prop):
                 vio("callback-while-not-running", f"after {after!r}: broadcast sent while the bridge was not running reached the callback")
                 for t in late:
                     must_not_deliver.pop(t, None)
+            if bystander.is_running is not True or await self.rig.barrier(bport, timeout=5.0) != "ok":
+                vio("other-bridge-affected", f"after {after!r} an independent running bridge reports is_running={bystander.is_running} or no longer delivers")
 
         async def do_start(kind):
             nonlocal model
@@ -271,6 +277,10 @@ class C17(Prop):
         finally:
             try:
                 await bridge.stop()
+            except Exception:
+                pass
+            try:
+                await bystander.stop()
             except Exception:
                 pass
             for s in occupied.values():
